@@ -15,29 +15,46 @@ def enum_variants(F, path):
     return [(v["name"], v["discr"] if v["discr"] is not None else str(v["idx"])) for v in a["variants"]]
 
 
+def _proj_fields(proj):
+    """projection -> tuple of field names if it consists only of derefs and named fields, else None"""
+    out = []
+    for e in proj:
+        if e == "*":
+            continue
+        if isinstance(e, list) and e[0] == "f":
+            out.append(e[2])
+        else:
+            return None
+    return tuple(out)
+
+
 def _root_of(body, local, depth=0):
-    """follow single-def whole-value copies/refs/derefs back to a root local"""
+    """follow single-def whole-value copies/refs/derefs/field projections back to (root local, field path)"""
     if depth > 12:
-        return local
+        return local, ()
     ds = body.defs().get(local, [])
-    if len(ds) != 1 or ds[0][0] != "s":
-        return local
+    if len(ds) == 1 and ds[0][0] == "call" and not ds[0][4][1]:
+        from .disc import short
+        from .mirlib import callee
+        return "call:" + short(callee(ds[0][3]) or "?"), ()
+    if len(ds) != 1 or ds[0][0] != "s" or ds[0][4][1]:
+        return local, ()
     rv = ds[0][3]
-    if ds[0][4][1]:
-        return local
+    p = None
     if rv[0] == "use" and rv[1][0] in ("c", "m"):
         p = rv[1][1]
-        if all(e == "*" for e in p[1]):
-            return _root_of(body, p[0], depth + 1)
-    if rv[0] == "ref":
+    elif rv[0] == "ref":
         p = rv[2]
-        if all(e == "*" for e in p[1]):
-            return _root_of(body, p[0], depth + 1)
-    return local
+    if p is not None:
+        fs = _proj_fields(p[1])
+        if fs is not None:
+            r, path = _root_of(body, p[0], depth + 1)
+            return r, path + fs
+    return local, ()
 
 
 def discr_root(body, switch_block):
-    """if the switch tests discriminant(P) with P a (deref chain of a) local, return the root local and enum type"""
+    """if the switch tests discriminant(P) with P = root local + derefs/fields, return ((root, fieldpath), enum type)"""
     t = body.term(switch_block)
     if t["k"] != "switch":
         return None
@@ -48,13 +65,15 @@ def discr_root(body, switch_block):
     if len(ds) != 1 or ds[0][0] != "s" or ds[0][3][0] != "discr":
         return None
     p = ds[0][3][1]
-    if not all(e == "*" for e in p[1]):
+    fs = _proj_fields(p[1])
+    if fs is None:
         return None
-    return _root_of(body, p[0]), ds[0][3][2]
+    r, path = _root_of(body, p[0])
+    return (r, path + fs), ds[0][3][2]
 
 
 def reach_under(body, assume):
-    """assume: {root local: discriminant value string}"""
+    """assume: {(root local, field path tuple) or root local: discriminant value string}"""
     seen = {0}
     dq = deque([0])
     while dq:
@@ -63,8 +82,8 @@ def reach_under(body, assume):
         succ = body.succ(b)
         if t["k"] == "switch":
             dr = discr_root(body, b)
-            if dr and dr[0] in assume:
-                want = assume[dr[0]]
+            if dr and (dr[0] in assume or (dr[0][1] == () and dr[0][0] in assume)):
+                want = assume[dr[0]] if dr[0] in assume else assume[dr[0][0]]
                 vals = dict(t["ts"])
                 succ = [vals[want]] if want in vals else [t["else"]]
         for s in succ:
